@@ -46,6 +46,23 @@ INFO = {
  'C20-B': ('C20', 'an unknown key inside the [sort_requires] table of stylua.toml', ['C20 quick'], ''),
  'C09-A': ('C09', 'a range, and an out-of-range LAST statement (return/break) written with a semicolon', ['C09 quick'], 'second round, on the fixed tree'),
  'C09-B': ('C09', 'sort_requires + a range with a require group partly outside the range', ['C09 quick'], 'second round, on the fixed tree'),
+ 'C01r2-A': ('C01', 'a long-bracket string of level >= 1 used directly as a table key or index (`{ [ [=[k]=] ] = v }`)', ['C01 quick'], 'round 2 (on the repaired tree)'),
+ 'C01r2-B': ('C01', 'Luau, a union type wide enough to hang whose LAST member is a parenthesised intersection', ['C01 quick'], 'round 2; missed at first: needed the F-TYPE family (type declarations x all widths)'),
+ 'C02r2-A': ('C02', 'redundant outer parentheses around an operand whose inner parentheses are required, at widths where the expression hangs', ['C02 quick', 'C05 quick'], 'round 2'),
+ 'C02r2-B': ('C02', 'Luau, a hung union type whose FIRST member is a parenthesised function type / optional', ['C02 quick'], 'round 2; F-TYPE'),
+ 'C03r2-A': ('C03', 'a comment on its own line between `.`/`:` and the name that follows', ['C03 quick'], 'round 2'),
+ 'C03r2-B': ('C03', 'Luau, a union/intersection whose non-first member is a generic function type preceded by a comment', ['C03 quick'], 'round 2; F-TRIVIA over the Luau type statements'),
+ 'C05r2-A': ('C05', 'redundant parentheses around a parenthesised unary/exponent operand on the hanging path', ['C05 quick'], 'round 2'),
+ 'C05r2-B': ('C05', 'Luau, a parenthesised if-expression as operand of a unary operator or left of a binary operator', ['C05 quick'], 'round 2'),
+ 'C06r2-A': ('C06', '`while` with a condition whose source is longer than its formatted text, formatted header landing near the column width', ['C06 quick'], 'round 2; needed conditions with removable parentheses in the catalogue'),
+ 'C06r2-B': ('C06', 'a comment before `else`/`elseif` inside a function that is itself an argument / table field (extra indent)', ['C06 quick'], 'round 2; needed the F-NEST enclosure subset in the quick tier'),
+ 'C06r2-C': ('C06', 'sort_requires on, a require statement spanning several lines in the input that collapses to one', ['C06 quick', 'C12 quick'], 'round 2; needed multi-line requires in F-REQ'),
+ 'C08r2-A': ('C08', 'sort_requires on, `-- stylua: ignore start` on a require, a LATER require group (after a blank line) still inside the region', ['C08 quick', 'C12 quick'], 'round 2; missed by C08 at first (C12 reported it): needed the regions-spanning-several-groups plan'),
+ 'C08r2-B': ('C08', 'a formatting range lying inside a statement that carries `-- stylua: ignore` and has a nested block', ['C08 quick'], 'round 2; missed at first: needed ignored compound statements x every pair of range points'),
+ 'C10r2-A': ('C10', 'CRLF input, a multi-line table, a `--` comment after a field value that has no comma behind it', ['C10 quick'], 'round 2; missed at first: the quick tier now renders every single-line-comment program in CRLF'),
+ 'C10r2-B': ('C10', 'a shebang line ending in CRLF', ['C10 quick'], 'round 2'),
+ 'C11r2-A': ('C11', 'call_parentheses = Input, a parenthesis-less call followed by `.name` / `[e]` / `:m()`', ['C11 quick'], 'round 2'),
+ 'C11r2-B': ('C11', 'space_after_function_names = Calls/Always and a call whose parentheses are added by the formatter', ['C11 quick'], 'round 2'),
  'OWN-buildB': ('C05', 'default features only (the `#[cfg(not(feature = "luau"))]` branch of the hanging path): a parenthesised prefix expression `(e).k` at a width where it hangs loses its parentheses', ['C05 quick (build B)'], 'my own change, to show that build B sees what build A (all syntaxes) cannot; the repository suite (153 tests, default features) passes with it'),
  'REV-json': ('C18', 'revert of fix b... (JSON diff keeps only the first inserted line)', ['C18 quick'], 'my own fix reverted, to show the check rediscovers the defect'),
  'REV-exitjson': ('C13', 'revert of the JSON-mode parse error exit status fix', ['C13 quick'], 'own fix reverted'),
